@@ -734,7 +734,7 @@ func genRequest(t *kernel.Tape, u *universe, servers map[string]*agd.Server, kin
 		default:
 		}
 	case agd.ProtoDoT, agd.ProtoDoQ:
-		switch t.Choose(6, "sni-shape") {
+		switch t.Choose(8, "sni-shape") {
 		case 0:
 			if id != "" {
 				r.sni = id + "." + deviceDomain
@@ -749,6 +749,12 @@ func genRequest(t *kernel.Tape, u *universe, servers map[string]*agd.Server, kin
 			r.sni = id + ".other.test"
 		case 4:
 			r.sni = deviceDomain
+		case 5:
+			// Names that merely end with the device domain's text: siblings
+			// of the device domain, not names under it.
+			r.sni = id + kernel.Pick(t, []string{"x", "-", "", ".x", "0"}, "sibling") + deviceDomain
+		case 6:
+			r.sni = id + "." + deviceDomain + kernel.Pick(t, []string{".", "x", ".test"}, "tail")
 		default:
 		}
 		// The wrong channel for this transport.
